@@ -12,10 +12,12 @@ from vf.gen import chain
 from vf.ref import gfa as rg
 
 
-def gen_graph(rng, defects=None, n_chrom=None, id_style=None, scaffolds=None, kinds=None, end_style=None, names=None, singletons=0):
-    """chain graph whose chromosome components are named (majority SN vote) by their rank-0 contig"""
+def gen_graph(rng, defects=None, n_chrom=None, id_style=None, scaffolds=None, kinds=None, end_style=None, names=None, singletons=0,
+              contig_major=0.0):
+    """chain graph whose chromosome components are named (majority SN vote) by their rank-0 contig -
+    or, with contig_major, now and then by an assembly contig that outnumbers the reference there"""
     for _ in range(50):
-        g = chain.gen_chain_rgfa(rng, n_chrom=n_chrom, id_style=id_style, defects=defects,
+        g = chain.gen_chain_rgfa(rng, n_chrom=n_chrom, id_style=id_style, defects=defects, contig_major=contig_major,
                                  scaffolds=scaffolds, kinds=kinds, end_style=end_style, names=names, singletons=singletons)
         ok = True
         for c in g.chroms:
@@ -52,6 +54,12 @@ BAD_ID_CHARS = set(" \t><,")
 
 
 def classify(g, comp, name):
+    # the reference contig of the component: its name, unless an assembly contig outnumbers the
+    # reference there (then the rank-0 contig with the most segments in it)
+    if not any(g.nodes[n].rank == 0 and g.nodes[n].contig == name for n in comp):
+        cnt = collections.Counter(g.nodes[n].contig for n in comp if g.nodes[n].rank == 0)
+        if cnt:
+            name = cnt.most_common(1)[0][0]
     ro = chain.reference_order(g, comp, name)
     info = {"ro": ro, "in_domain": ro["chain"] is not None, "reason": ro["reason"], "n_artic": len(ro["artic"])}
     if any(BAD_ID_CHARS & set(n) for n in comp):
